@@ -879,6 +879,12 @@ package objects
 //@ func NewAllocationFromSI(alloc *si.Allocation) (a *Allocation)
 //@   props C13
 //@   sweep
-//@   mode nopanic=off
+//@   mode nopanic=on
 //@   ensures[nil] a == nil <==> (alloc == nil || (alloc.Placeholder && alloc.TaskGroupName == ""))
 //@   ensures[fields] a != nil ==> a.allocationKey == alloc.AllocationKey && a.applicationID == alloc.ApplicationID && a.placeholder == alloc.Placeholder && a.taskGroupName == alloc.TaskGroupName && a.nodeID == alloc.NodeID && a.allocated == (alloc.NodeID != "") && a.allocatedResource != nil && !a.released && !a.preempted
+
+//@ func NewApplication(siApp *si.AddApplicationRequest, ugi security.UserGroup, eventHandler handler.EventHandler, rmID string) (app *Application)
+//@   props C13
+//@   sweep
+//@   mode nopanic=off
+//@   ensures app != nil
